@@ -65,7 +65,7 @@ PORTFOLIO_CAP = 3
 _portfolio = {"n": 0}
 
 
-def discharge(pc, goal, timeout_ms=8000):
+def discharge(pc, goal, timeout_ms=6000):
     """valid(pc => goal)?  returns (status, backend, seconds, model|None)"""
     t0 = time.time()
     if goal is True:
@@ -108,19 +108,39 @@ def discharge(pc, goal, timeout_ms=8000):
     for c in pc:
         s.add(c)
     s.add(z3.Not(goal) if not isinstance(goal, bool) else z3.BoolVal(not goal))
+    from .symex import has_quantifier
+    quantified = any(has_quantifier(a) for a in s.assertions())
+    if quantified and _portfolio["n"] <= PORTFOLIO_CAP:
+        # quantified query: the printed-and-re-parsed form first (see below), with a short budget
+        try:
+            ctx2 = z3.Context()
+            s2 = z3.Solver(ctx=ctx2)
+            s2.set("timeout", 2500)
+            s2.add(z3.parse_smt2_string(s.to_smt2(), ctx=ctx2))
+            if s2.check() == z3.unsat:
+                return "discharged", "z3-5.1(api, re-parsed)", time.time() - t0, None
+        except z3.Z3Exception:
+            pass
     r = s.check()
     if r == z3.unknown and _portfolio["n"] <= PORTFOLIO_CAP:
         # quantifier instantiation is sensitive to the order / numbering of the terms the executor happened to build: the same
         # query, printed and parsed again into a fresh context, is very often decided in a second or two (measured: the merge
         # steps of reduce_ranges / __chars_to_ranges, 2 s instead of > 15 s).  Tried before the external portfolio.
         try:
-            ctx2 = z3.Context()
-            s2 = z3.Solver(ctx=ctx2)
-            s2.set("timeout", timeout_ms)
-            s2.add(z3.parse_smt2_string(s.to_smt2(), ctx=ctx2))
-            r2 = s2.check()
-            if r2 == z3.unsat:
-                return "discharged", "z3-5.1(api, re-parsed)", time.time() - t0, None
+            text = s.to_smt2()
+            if os.environ.get("PVC_DUMP_SLOW"):
+                open(f"/tmp/slowvc_{int(time.time()*1000)%1000000}.smt2", "w").write(text)
+            for seed in (0, 7, 13):
+                ctx2 = z3.Context()
+                s2 = z3.Solver(ctx=ctx2)
+                s2.set("timeout", timeout_ms)
+                s2.set("random_seed", seed)
+                s2.add(z3.parse_smt2_string(text, ctx=ctx2))
+                r2 = s2.check()
+                if r2 == z3.unsat:
+                    return "discharged", f"z3-5.1(api, re-parsed, seed {seed})", time.time() - t0, None
+                if r2 == z3.sat:
+                    break
         except z3.Z3Exception:
             pass
     dt = time.time() - t0
